@@ -25,4 +25,16 @@ META = {
         bounds_thorough="filters <=2 full alphabet, 3-4 reduced; 12 events",
         assumptions=COMMON_ASSUME + ["an empty (but present) expression list is treated like an absent one, as the wiring does; missing or non-string category/service match as the empty string"],
     ),
+    "C19": dict(
+        rule="ToAddr called for all 65,536 ports x {tcp,udp} plus host forms x boundary/malformed ports x protocol spellings, compared with an independent reference parser; configurations run through the real server.New+Run with the recording verif-mem listener: every single port entry over 18 port strings x {port, ports, both} x 8 service lists (defined, undefined, duplicate, empty), all ordered pairs over an 84-entry alphabet, all triples (and a third of / thorough: all quadruples) over a 12-entry alphabet keeping every duplicate/compatibility pattern; oracle = reference table builder (AddAddress list, order and content) and, per listened address, the stub service that sees a probe connection/datagram. Distinct = distinct (listen list, service table) outcomes.",
+        bounds_quick="<=2 entries full/84-entry alphabet; 3 entries and 1/3 of 4 entries over 12-entry alphabet",
+        bounds_thorough="as quick plus all 4-entry configurations over the 12-entry alphabet",
+        assumptions=COMMON_ASSUME + ["host names (DNS) are not used in port strings; addresses are compatible when protocol and port are equal and either IP is absent/unspecified or both are equal"],
+    ),
+    "C08": dict(
+        rule="through the real server.New+Run with stub services registered via the public registry (plain = no detector, det-X = detector 'first byte is X'): every service list of length 0..3 (thorough 4) over {p1,p2,dA,dB,dA2} on one TCP port x 6 first payloads (none, A.., B.., C.. of 1025 bytes, 1-2 byte ones) x first-segment sizes {1,2,1023,1024,all} x rest in 1-2 segments; the same lists on a UDP port through the datagram dispatcher; port tables of 2 and 3 ports (wildcard / 127.0.0.1 / 10.0.0.1 / 0.0.0.0, tcp/udp, two port numbers) x 7 probe addresses. Oracle: reference findService on the first segment delivered (<=1024 bytes), exactly one stub invoked (or none and the connection closed), bytes read by the stub == full client stream. Distinct = distinct (chosen service, list shape, payload, segmentation) outcomes.",
+        bounds_quick="lists <=3; 5 first-segment sizes; tables of 2 (half of list pairs) and 1/3 of tables of 3",
+        bounds_thorough="lists <=4; 8 first-segment sizes; all tables of 2 and 3",
+        assumptions=COMMON_ASSUME + ["a detector is applied to the first segment the client's stack delivered (<=1024 bytes); a client that sends nothing to a list whose decision needs a detector is not judged"],
+    ),
 }
